@@ -4,9 +4,12 @@ import (
 	"bytes"
 	"context"
 	"crypto/sha256"
+	"database/sql"
 	"encoding/json"
 	"errors"
 	"fmt"
+	"net/http/httptest"
+	"net/url"
 	"os"
 	"runtime"
 	"strings"
@@ -18,11 +21,15 @@ import (
 	"github.com/google/certificate-transparency-go/trillian/ctfe/cache"
 	"github.com/google/certificate-transparency-go/trillian/ctfe/cache/lru"
 	"github.com/google/certificate-transparency-go/trillian/ctfe/cache/noop"
+	"github.com/google/certificate-transparency-go/trillian/ctfe/storage"
+	mysqlstore "github.com/google/certificate-transparency-go/trillian/ctfe/storage/mysql"
+	pgstore "github.com/google/certificate-transparency-go/trillian/ctfe/storage/postgresql"
 	"github.com/google/trillian"
 	"google.golang.org/protobuf/proto"
 
 	"verifharness/ctfeenv"
 	"verifharness/pki"
+	"verifharness/sqlfake"
 	"verifharness/vh"
 )
 
@@ -69,49 +76,170 @@ func (m *MemStore) Add(_ context.Context, key []byte, chain []byte) error {
 	return nil
 }
 
-// holds tells whether the store has exactly chain under key.
-func (m *MemStore) holds(key, chain []byte) bool {
-	m.mu.Lock()
-	defer m.mu.Unlock()
-	v, ok := m.rows[string(key)]
-	return ok && bytes.Equal(v, chain)
-}
-
-func (m *MemStore) counts() (int, int) { m.mu.Lock(); defer m.mu.Unlock(); return m.Adds, m.Finds }
-
-// damage rewrites a stored row.
-func (m *MemStore) damage(key []byte, class string) {
-	m.mu.Lock()
-	defer m.mu.Unlock()
-	v, ok := m.rows[string(key)]
-	if !ok {
-		return
-	}
+// damaged computes what a damaged row holds; other is the well-formed value of another key (class "swapped").
+func damaged(v []byte, class string, other []byte) []byte {
 	switch class {
-	case "drop":
-		delete(m.rows, string(key))
-		return
 	case "trailing":
-		v = append(append([]byte{}, v...), 0)
+		return append(append([]byte{}, v...), 0)
 	case "notDER":
-		v = []byte("this is not DER at all")
+		return []byte("this is not DER at all")
 	case "truncated":
 		if len(v) > 3 {
-			v = v[:len(v)-3]
-		} else {
-			v = v[:1]
+			return append([]byte{}, v[:len(v)-3]...)
 		}
+		return append([]byte{}, v[:1]...)
 	case "empty":
-		v = []byte{}
+		return []byte{}
+	case "swapped":
+		return append([]byte{}, other...)
 	case "contentFlip":
 		v = append([]byte{}, v...)
 		if len(v) > 40 {
 			v[len(v)/2] ^= 0x01 // inside a certificate's bytes: the ASN.1 structure of the row stays intact
-		} else {
-			v = []byte("this is not DER at all") // the empty chain has no content to flip
+			return v
+		}
+		return []byte("this is not DER at all") // the empty chain has no content to flip
+	}
+	return v
+}
+
+// storeCtl is the harness' handle on the storage below the external-storage twin: the object the instance talks to
+// (Impl: the in-memory stand-in, or the real MySQL / PostgreSQL IssuanceChainStorage of the repository on the
+// in-process database of package sqlfake) and the table behind it.
+type storeCtl interface {
+	Impl() storage.IssuanceChainStorage
+	Reopen() storage.IssuanceChainStorage // what a restarted front end gets: the same table through a new handle
+	row(key []byte) ([]byte, bool)
+	setRow(key, v []byte)
+	dropRow(key []byte)
+	arm(fault string, variant int, cancel func())
+	disarm()
+	shut()
+	sql() *sqlfake.DB // nil for the in-memory stand-in
+}
+
+func (m *MemStore) Impl() storage.IssuanceChainStorage   { return m }
+func (m *MemStore) Reopen() storage.IssuanceChainStorage { return m }
+func (m *MemStore) sql() *sqlfake.DB                     { return nil }
+func (m *MemStore) shut()                                {}
+func (m *MemStore) row(key []byte) ([]byte, bool) {
+	m.mu.Lock()
+	defer m.mu.Unlock()
+	v, ok := m.rows[string(key)]
+	return append([]byte{}, v...), ok
+}
+func (m *MemStore) setRow(key, v []byte) { m.mu.Lock(); m.rows[string(key)] = v; m.mu.Unlock() }
+func (m *MemStore) dropRow(key []byte)   { m.mu.Lock(); delete(m.rows, string(key)); m.mu.Unlock() }
+func (m *MemStore) arm(fault string, _ int, _ func()) {
+	m.mu.Lock()
+	defer m.mu.Unlock()
+	switch fault {
+	case "addError":
+		m.FailAdd = true
+	case "findError":
+		m.FailFind = true
+	default:
+		panic("the in-memory storage has no fault class " + fault)
+	}
+}
+func (m *MemStore) disarm() { m.mu.Lock(); m.FailAdd, m.FailFind = false, false; m.mu.Unlock() }
+
+// sqlStore is the real SQL storage implementation of the repository on the in-process database.
+type sqlStore struct {
+	db   *sqlfake.DB
+	h    *sql.DB
+	impl storage.IssuanceChainStorage
+}
+
+func newSQLStore(dialect string) *sqlStore {
+	s := &sqlStore{db: sqlfake.New(sqlfake.Dialect(dialect))}
+	s.Reopen()
+	return s
+}
+
+func (s *sqlStore) Impl() storage.IssuanceChainStorage { return s.impl }
+func (s *sqlStore) Reopen() storage.IssuanceChainStorage {
+	if s.h != nil {
+		s.h.Close()
+	}
+	s.h = s.db.Open()
+	if s.db.Dialect == sqlfake.MySQL {
+		s.impl = mysqlstore.NewIssuanceChainStorageFromDBForVerif(s.h)
+	} else {
+		s.impl = pgstore.NewIssuanceChainStorageFromDBForVerif(s.h)
+	}
+	return s.impl
+}
+func (s *sqlStore) sql() *sqlfake.DB              { return s.db }
+func (s *sqlStore) shut()                         { s.h.Close() }
+func (s *sqlStore) row(key []byte) ([]byte, bool) { return s.db.Row(key) }
+func (s *sqlStore) setRow(key, v []byte)          { s.db.SetRow(key, v) }
+func (s *sqlStore) dropRow(key []byte)            { s.db.DeleteRow(key) }
+func (s *sqlStore) disarm()                       { s.db.Disarm() }
+func (s *sqlStore) arm(fault string, variant int, cancel func()) {
+	on := "exec"
+	if strings.HasPrefix(fault, "find") {
+		on = "query"
+	}
+	kind := map[string]string{"Error": "error", "Cancel": "cancel", "LateCancel": "lateCancel", "RowsError": "rowsError", "ConnDown": "down", "ConnLost": "badconn"}[strings.TrimPrefix(strings.TrimPrefix(fault, "add"), "find")]
+	if kind == "" {
+		panic("no SQL fault class " + fault)
+	}
+	s.db.Arm(sqlfake.Fault{Kind: kind, On: on, Variant: variant, Cancel: cancel})
+}
+
+// layerRec sits between the issuance chain service and the storage implementation and records what the storage
+// layer was asked and what it answered: the specification says, per step, whether the layer is called and whether
+// it answers with data / ok or with an error (reply.add / find / layer / layers).
+type layerRec struct {
+	mu    sync.Mutex
+	inner storage.IssuanceChainStorage
+	calls []layerCall
+}
+
+type layerCall struct {
+	op   string // "add" | "find"
+	key  []byte
+	data []byte // add: the chain handed in; find: the bytes handed back
+	err  error
+}
+
+func (l *layerRec) cur() storage.IssuanceChainStorage {
+	l.mu.Lock()
+	defer l.mu.Unlock()
+	return l.inner
+}
+func (l *layerRec) set(s storage.IssuanceChainStorage) { l.mu.Lock(); l.inner = s; l.mu.Unlock() }
+
+// FindByKey implements storage.IssuanceChainStorage.
+func (l *layerRec) FindByKey(ctx context.Context, key []byte) ([]byte, error) {
+	data, err := l.cur().FindByKey(ctx, key)
+	l.mu.Lock()
+	l.calls = append(l.calls, layerCall{"find", append([]byte{}, key...), data, err})
+	l.mu.Unlock()
+	return data, err
+}
+
+// Add implements storage.IssuanceChainStorage.
+func (l *layerRec) Add(ctx context.Context, key []byte, chain []byte) error {
+	err := l.cur().Add(ctx, key, chain)
+	l.mu.Lock()
+	l.calls = append(l.calls, layerCall{"add", append([]byte{}, key...), append([]byte{}, chain...), err})
+	l.mu.Unlock()
+	return err
+}
+
+func (l *layerRec) mark() int { l.mu.Lock(); defer l.mu.Unlock(); return len(l.calls) }
+func (l *layerRec) since(n int, op string) []layerCall {
+	l.mu.Lock()
+	defer l.mu.Unlock()
+	var out []layerCall
+	for _, c := range l.calls[n:] {
+		if c.op == op {
+			out = append(out, c)
 		}
 	}
-	m.rows[string(key)] = v
+	return out
 }
 
 // GateCache wraps a real cache; Set (called from the detached goroutine) blocks until the harness fires it.
@@ -240,34 +368,76 @@ type CSStep struct {
 		Class string `json:"class"`
 	} `json:"args"`
 	Reply struct {
-		Status int    `json:"status"`
-		Add    bool   `json:"add"`
-		Find   bool   `json:"find"`
-		Finds  int    `json:"finds"`
-		Sets   int    `json:"sets"`
-		Cert   string `json:"cert"`
+		Status int      `json:"status"`
+		Add    bool     `json:"add"`
+		Find   bool     `json:"find"`
+		Finds  int      `json:"finds"`
+		Sets   int      `json:"sets"`
+		Cert   string   `json:"cert"`
+		Path   string   `json:"path"`   // Submit: "hit" | "inserted" | the dialect's de-duplication path | "error"
+		Layer  string   `json:"layer"`  // what the storage layer answers: "none" (not called) | "ok" / "data" | "error"
+		Layers []string `json:"layers"` // ReadRange: the same, lookup by lookup
 	} `json:"reply"`
 }
 
 // CSBehaviour is one exported behaviour.
 type CSBehaviour struct {
-	Cap   int      `json:"cap"`
-	Steps []CSStep `json:"steps"`
-	Cold  []bool   `json:"cold"` // per integrated entry: can a front end with a cold cache serve it from the final state (ServableCold)
+	Cap     int      `json:"cap"`
+	Dialect string   `json:"dialect"` // storage layer below the external twin: "memory" (also when absent) | "mysql" | "postgresql"
+	Steps   []CSStep `json:"steps"`
+	Cold    []bool   `json:"cold"` // per integrated entry: can a front end with a cold cache serve it from the final state (ServableCold)
 }
 
 type twin struct {
 	d, x, l *World // direct, external, legacy-leaf builder (direct mode, separate backend)
-	store   *MemStore
+	dialect string
+	store   storeCtl
+	rec     *layerRec
 	gate    *GateCache
 	keys    map[string][]byte // chain id -> storage key (learned from the first Add of that chain)
+	vals    map[string][]byte // chain id -> stored value (likewise)
 	restart func() error      // replaces x by a new instance (same backend, same store) with a cold cache
 }
 
 // chain ids of MCChainOf
 var chainOf = map[string]string{"x1": "cA", "x2": "cA", "x3": "c0", "p1": "cB", "p2": "cA"}
 
-func newTwin(dir string, capacity int, seedSalt int64, realTTL time.Duration) (*twin, error) {
+// holds tells whether the table has exactly chain under key.
+func (tw *twin) holds(key, chain []byte) bool {
+	v, ok := tw.store.row(key)
+	return ok && bytes.Equal(v, chain)
+}
+
+// damage rewrites or removes a stored row.
+func (tw *twin) damage(chain, class string, pick int) {
+	key := tw.keys[chain]
+	if class == "drop" {
+		tw.store.dropRow(key)
+		return
+	}
+	v, ok := tw.store.row(key)
+	if !ok {
+		return
+	}
+	// "swapped": the well-formed value of another key - the empty chain's (SEQUENCE of nothing), another stored
+	// chain's, or for the empty chain itself a one-element chain
+	other := []byte{0x30, 0x00}
+	var known [][]byte
+	for _, id := range []string{"c0", "cA", "cB"} {
+		if o, ok := tw.vals[id]; ok && id != chain {
+			known = append(known, o)
+		}
+	}
+	switch {
+	case chain == "c0" && len(known) == 0:
+		other = []byte{0x30, 0x04, 0x30, 0x02, 0x04, 0x00}
+	case chain == "c0" || (len(known) > 0 && pick%2 == 1):
+		other = known[pick%len(known)]
+	}
+	tw.store.setRow(key, damaged(v, class, other))
+}
+
+func newTwin(dir string, capacity int, seedSalt int64, realTTL time.Duration, dialect string) (*twin, error) {
 	ids := []string{"p1", "p2", "x1", "x2", "x3"}
 	pre := map[string]bool{"p1": true, "p2": true}
 	root := pki.NewRoot(pki.Opts{CN: "twin root"})
@@ -283,8 +453,17 @@ func newTwin(dir string, capacity int, seedSalt int64, realTTL time.Duration) (*
 	} else {
 		real = lru.NewIssuanceChainCache(lru.CacheOption{Size: capacity, TTL: realTTL})
 	}
-	tw := &twin{store: newMemStore(), gate: newGateCache(real), keys: map[string][]byte{}}
-	tw.gate.vouch = tw.store.holds
+	tw := &twin{dialect: dialect, gate: newGateCache(real), keys: map[string][]byte{}, vals: map[string][]byte{}}
+	switch dialect {
+	case "", "memory":
+		tw.dialect, tw.store = "memory", newMemStore()
+	case "mysql", "postgresql":
+		tw.store = newSQLStore(dialect)
+	default:
+		return nil, fmt.Errorf("unknown storage dialect %q", dialect)
+	}
+	tw.rec = &layerRec{inner: tw.store.Impl()}
+	tw.gate.vouch = tw.holds
 	subs := map[string]*Sub{}
 	for _, id := range ids {
 		s := &Sub{ID: id, Pre: pre[id]}
@@ -323,7 +502,7 @@ func newTwin(dir string, capacity int, seedSalt int64, realTTL time.Duration) (*
 	if tw.l, err = mk(ctfeenv.Opts{}); err != nil {
 		return nil, err
 	}
-	if tw.x, err = mk(ctfeenv.Opts{Storage: tw.store, Cache: tw.gate}); err != nil {
+	if tw.x, err = mk(ctfeenv.Opts{Storage: tw.rec, Cache: tw.gate}); err != nil {
 		return nil, err
 	}
 	tw.restart = func() error {
@@ -335,8 +514,9 @@ func newTwin(dir string, capacity int, seedSalt int64, realTTL time.Duration) (*
 			fresh = lru.NewIssuanceChainCache(lru.CacheOption{Size: capacity, TTL: realTTL})
 		}
 		tw.gate = newGateCache(fresh)
-		tw.gate.vouch = tw.store.holds
-		x, err := mk(ctfeenv.Opts{Storage: tw.store, Cache: tw.gate, Backend: tw.x.Env.Backend})
+		tw.gate.vouch = tw.holds
+		tw.rec.set(tw.store.Reopen()) // the new process opens its own database handle on the same table
+		x, err := mk(ctfeenv.Opts{Storage: tw.rec, Cache: tw.gate, Backend: tw.x.Env.Backend})
 		if err != nil {
 			return err
 		}
@@ -347,9 +527,52 @@ func newTwin(dir string, capacity int, seedSalt int64, realTTL time.Duration) (*
 	return tw, nil
 }
 
+// doCtx is Env.Do with a request context the harness can cancel (the SQL fault classes "cancel in flight").
+func doCtx(ctx context.Context, e *ctfeenv.Env, method, path string, qv url.Values, body []byte) (code int, rbody []byte, err error) {
+	h, ok := e.Inst.Handlers[e.Prefix+path]
+	if !ok {
+		return 404, nil, nil
+	}
+	target := e.Prefix + path
+	if qv != nil {
+		target += "?" + qv.Encode()
+	}
+	req := httptest.NewRequest(method, target, bytes.NewReader(body)).WithContext(ctx)
+	rec := httptest.NewRecorder()
+	defer func() {
+		if r := recover(); r != nil {
+			err = fmt.Errorf("panic in %s %s: %v", method, path, r)
+			code = 0
+		}
+	}()
+	h.ServeHTTP(rec, req)
+	return rec.Code, rec.Body.Bytes(), nil
+}
+
+func addChainCtx(ctx context.Context, e *ctfeenv.Env, chain [][]byte, pre bool) (int, []byte, error) {
+	body, _ := json.Marshal(ct.AddChainRequest{Chain: chain})
+	path := ct.AddChainPath
+	if pre {
+		path = ct.AddPreChainPath
+	}
+	code, rb, err := doCtx(ctx, e, "POST", path, nil, body)
+	if err != nil || code != 200 {
+		return code, rb, err
+	}
+	var rsp ct.AddChainResponse
+	if err := json.Unmarshal(rb, &rsp); err != nil {
+		return code, rb, fmt.Errorf("add-chain reply is not JSON: %v", err)
+	}
+	return code, rb, nil
+}
+
 func readEntry(w *World, via string, index, size int) (int, []byte, []byte, error) {
+	return readEntryCtx(context.Background(), w, via, index, size)
+}
+
+func readEntryCtx(ctx context.Context, w *World, via string, index, size int) (int, []byte, []byte, error) {
 	if via == "proof" {
-		code, body, _, err := w.Env.Do("GET", ct.GetEntryAndProofPath, q("leaf_index", index, "tree_size", size), nil)
+		code, body, err := doCtx(ctx, w.Env, "GET", ct.GetEntryAndProofPath, q("leaf_index", index, "tree_size", size), nil)
 		if err != nil || code != 200 {
 			return code, nil, nil, err
 		}
@@ -359,7 +582,7 @@ func readEntry(w *World, via string, index, size int) (int, []byte, []byte, erro
 		}
 		return code, r.LeafInput, r.ExtraData, nil
 	}
-	code, body, _, err := w.Env.Do("GET", ct.GetEntriesPath, q("start", index, "end", index), nil)
+	code, body, err := doCtx(ctx, w.Env, "GET", ct.GetEntriesPath, q("start", index, "end", index), nil)
 	if err != nil || code != 200 {
 		return code, nil, nil, err
 	}
@@ -370,8 +593,8 @@ func readEntry(w *World, via string, index, size int) (int, []byte, []byte, erro
 	return code, r.Entries[0].LeafInput, r.Entries[0].ExtraData, nil
 }
 
-func readRange(w *World, from, to int) (int, []ct.LeafEntry, error) {
-	code, body, _, err := w.Env.Do("GET", ct.GetEntriesPath, q("start", from, "end", to), nil)
+func readRange(ctx context.Context, w *World, from, to int) (int, []ct.LeafEntry, error) {
+	code, body, err := doCtx(ctx, w.Env, "GET", ct.GetEntriesPath, q("start", from, "end", to), nil)
 	if err != nil || code != 200 {
 		return code, nil, err
 	}
@@ -383,8 +606,8 @@ func readRange(w *World, from, to int) (int, []ct.LeafEntry, error) {
 }
 
 func lastRangeCause(s CSStep) string {
-	if s.Args.Fault == "findError" {
-		return "findError"
+	if s.Args.Fault != "none" && s.Args.Fault != "" {
+		return s.Args.Fault
 	}
 	if s.Reply.Status != 200 {
 		return "damaged-or-missing-row"
@@ -393,16 +616,68 @@ func lastRangeCause(s CSStep) string {
 }
 
 func runChainStore(t *testing.T, beh CSBehaviour, idx int, rep *vh.Report, dir string) {
-	tw, err := newTwin(dir, beh.Cap, int64(idx), 0)
+	tw, err := newTwin(dir, beh.Cap, int64(idx), 0, beh.Dialect)
 	if err != nil {
 		t.Fatalf("twin: %v", err)
 	}
-	defer func() { tw.gate.ReleaseAll() }()
+	defer func() { tw.gate.ReleaseAll(); reportSQL(rep, tw); tw.store.shut() }()
+	rep.Add("behaviours_on_"+tw.dialect+"_storage", 1)
 	kinds := map[string]bool{}
 	diverged := false
 	viol := func(n int, fp, what string) {
 		diverged = true // once implementation and specification disagree the rest of the behaviour has no meaning
-		rep.Violate("chainstore:"+fp, what, map[string]any{"behaviour": CSBehaviour{Cap: beh.Cap, Steps: beh.Steps[:n+1]}, "step": n})
+		if tw.dialect != "memory" {
+			what = "[storage: the repository's " + tw.dialect + " IssuanceChainStorage on the in-process database] " + what
+		}
+		rep.Violate("chainstore:"+fp, what, map[string]any{"behaviour": CSBehaviour{Cap: beh.Cap, Dialect: beh.Dialect, Steps: beh.Steps[:n+1]}, "step": n})
+	}
+	// the storage layer against the specification's reply.layer: was it called, did it answer with an error or not,
+	// and (FindByKey) are the bytes it handed back the bytes of the row.  cause names the situation for the fingerprint.
+	layerCheck := func(n int, op string, calls []layerCall, want []string, cause string) {
+		nw := 0
+		for _, w := range want {
+			if w != "none" && w != "" {
+				nw++
+			}
+		}
+		if len(calls) != nw {
+			return // the call counts are judged by the add-calls / find-calls checks
+		}
+		k := 0
+		for _, w := range want {
+			if w == "none" || w == "" {
+				continue
+			}
+			c := calls[k]
+			k++
+			fp := fmt.Sprintf("storage:%s:%s:%s", tw.dialect, op, cause)
+			switch {
+			case w == "error" && c.err == nil:
+				what := "Add returned no error"
+				if op == "find" {
+					what = fmt.Sprintf("FindByKey returned no error and %d bytes", len(c.data))
+				}
+				viol(n, fp+":returned-no-error", fmt.Sprintf("storage layer (%s), %s: the specification's storage layer answers with an error here, %s", tw.dialect, cause, what))
+			case w != "error" && c.err != nil:
+				viol(n, fp+":returned-error", fmt.Sprintf("storage layer (%s), %s: the specification's storage layer succeeds here, the implementation returned the error %q", tw.dialect, cause, c.err.Error()))
+			case w == "error" && op == "find" && len(c.data) > 0:
+				viol(n, fp+":error-with-data", fmt.Sprintf("storage layer (%s), %s: FindByKey returned an error together with %d bytes", tw.dialect, cause, len(c.data)))
+			case w == "data":
+				if row, ok := tw.store.row(c.key); !ok || !bytes.Equal(row, c.data) {
+					viol(n, fp+":data-differs", fmt.Sprintf("storage layer (%s), %s: FindByKey handed back %d bytes that are not the ChainValue of the row with that IdentityHash (%d bytes, row present: %v)", tw.dialect, cause, len(c.data), len(row), ok))
+				}
+			}
+		}
+	}
+	rowCause := func(chain string) string {
+		v, ok := tw.store.row(tw.keys[chain])
+		switch {
+		case !ok:
+			return "missing-row"
+		case !bytes.Equal(v, tw.vals[chain]):
+			return "damaged-row"
+		}
+		return "intact-row"
 	}
 	outstanding := 0 // detached cache writes the specification has started and not yet fired (counted for the noop cache too)
 	unmodelled := false
@@ -434,21 +709,44 @@ func runChainStore(t *testing.T, beh CSBehaviour, idx int, rep *vh.Report, dir s
 		switch s.Op {
 		case "Submit":
 			sub := tw.d.Subs[s.Args.Cert]
-			a0, _ := tw.store.counts()
-			if s.Args.Fault == "addError" {
-				tw.store.mu.Lock()
-				tw.store.FailAdd = true
-				tw.store.mu.Unlock()
+			chain := chainOf[s.Args.Cert]
+			m0 := tw.rec.mark()
+			rowBefore, presentBefore := tw.store.row(tw.keys[chain])
+			var st0 sqlfake.Stats
+			if db := tw.store.sql(); db != nil {
+				st0 = db.Stats()
+			}
+			ctx, cancel := context.WithCancel(context.Background())
+			if s.Args.Fault != "none" {
+				tw.store.arm(s.Args.Fault, idx*31+n, cancel)
 			}
 			q0 := tw.x.Env.Backend.CallCount("QueueLeaf")
-			codeX, _, bodyX, errX := tw.x.Env.AddChain(sub.Chain, sub.Pre)
-			a1, _ := tw.store.counts()
-			tw.store.mu.Lock()
-			tw.store.FailAdd = false
-			tw.store.mu.Unlock()
-			if errX != nil {
+			codeX, bodyX, errX := addChainCtx(ctx, tw.x.Env, sub.Chain, sub.Pre)
+			cancel()
+			tw.store.disarm()
+			adds := tw.rec.since(m0, "add")
+			if errX != nil && codeX == 0 {
 				viol(n, "submit:panic", errX.Error())
 				continue
+			}
+			if errX != nil {
+				viol(n, "submit:reply-not-json", errX.Error())
+				continue
+			}
+			if len(adds) > 0 {
+				tw.keys[chain] = adds[len(adds)-1].key
+				if _, ok := tw.vals[chain]; !ok {
+					tw.vals[chain] = adds[len(adds)-1].data
+				}
+			}
+			cause := s.Reply.Path
+			if s.Args.Fault != "none" {
+				cause = s.Args.Fault
+			}
+			layerCheck(n, "add", adds, []string{s.Reply.Layer}, cause)
+			if s.Reply.Layer == "ok" && s.Reply.Path == "inserted" && len(adds) == 1 && adds[0].err == nil && !tw.holds(adds[0].key, adds[0].data) {
+				row, ok := tw.store.row(adds[0].key)
+				viol(n, fmt.Sprintf("storage:%s:add:inserted:row-differs", tw.dialect), fmt.Sprintf("storage layer (%s): Add of a new key returned no error, but the table does not hold the chain (%d bytes) under that IdentityHash (row present: %v, %d bytes)", tw.dialect, len(adds[0].data), ok, len(row)))
 			}
 			if s.Reply.Status == 200 && codeX != 200 {
 				viol(n, fmt.Sprintf("submit:status:got%d", codeX), fmt.Sprintf("submission of %s with external chain storage answered %d: %s", s.Args.Cert, codeX, bodyX))
@@ -456,20 +754,37 @@ func runChainStore(t *testing.T, beh CSBehaviour, idx int, rep *vh.Report, dir s
 			}
 			if s.Reply.Status != 200 {
 				if codeX < 500 || tw.x.Env.Backend.CallCount("QueueLeaf") != q0 {
-					viol(n, "submit:storage-fault-not-5xx", fmt.Sprintf("storage Add failed but the submission answered %d (backend called: %v)", codeX, tw.x.Env.Backend.CallCount("QueueLeaf") != q0))
+					viol(n, "submit:storage-fault-not-5xx", fmt.Sprintf("storage Add failed (%s) but the submission answered %d (backend called: %v)", s.Args.Fault, codeX, tw.x.Env.Backend.CallCount("QueueLeaf") != q0))
+				} else if len(adds) != 1 {
+					viol(n, "submit:add-calls:want=true", fmt.Sprintf("submission of %s: storage.Add called %d times, specification says once (with fault %s)", s.Args.Cert, len(adds), s.Args.Fault))
 				}
-				// the specification leaves the state unchanged: the direct twin does not get this submission either
+				// the specification leaves the twin-visible state unchanged: the direct twin does not get this submission either
 				settle(n, "after-failed-add")
 				continue
 			}
 			if codeD, _, bodyD, errD := tw.d.Env.AddChain(sub.Chain, sub.Pre); errD != nil || codeD != 200 {
 				t.Fatalf("direct instance rejected %s: %d %v %s", s.Args.Cert, codeD, errD, bodyD)
 			}
-			if (a1-a0 == 1) != s.Reply.Add {
-				viol(n, fmt.Sprintf("submit:add-calls:want=%v", s.Reply.Add), fmt.Sprintf("submission of %s: storage.Add called %d times, specification says cache %s", s.Args.Cert, a1-a0, map[bool]string{true: "miss (Add)", false: "hit (no Add)"}[s.Reply.Add]))
+			if (len(adds) == 1) != s.Reply.Add {
+				viol(n, fmt.Sprintf("submit:add-calls:want=%v", s.Reply.Add), fmt.Sprintf("submission of %s: storage.Add called %d times, specification says cache %s", s.Args.Cert, len(adds), map[bool]string{true: "miss (Add)", false: "hit (no Add)"}[s.Reply.Add]))
 			}
-			if a1 > a0 {
-				tw.keys[chainOf[s.Args.Cert]] = tw.store.LastKey
+			if db := tw.store.sql(); db != nil && !diverged && s.Reply.Add {
+				// which path the database took: the de-duplication path is exactly the dialect's, and it leaves the row as it was
+				st1 := db.Stats()
+				got := fmt.Sprintf("inserted=%d,dupError=%d,conflictSkipped=%d,rewritten=%d,rejected=%d", st1.Inserted-st0.Inserted, st1.DupErrors-st0.DupErrors,
+					st1.ConflictsSkipped-st0.ConflictsSkipped, st1.Updated-st0.Updated, st1.SyntaxErrors+st1.Unsupported-st0.SyntaxErrors-st0.Unsupported)
+				want := map[string]string{"inserted": "inserted=1,dupError=0,conflictSkipped=0,rewritten=0,rejected=0", "dupKeyError": "inserted=0,dupError=1,conflictSkipped=0,rewritten=0,rejected=0",
+					"conflictSkipped": "inserted=0,dupError=0,conflictSkipped=1,rewritten=0,rejected=0"}[s.Reply.Path]
+				if got != want {
+					viol(n, fmt.Sprintf("submit:dedup-path:%s:want=%s:got:%s", tw.dialect, s.Reply.Path, got), fmt.Sprintf("submission of %s (chain %s, row present before: %v): the specification's %s storage takes the path %q, the database saw %s", s.Args.Cert, chain, presentBefore, tw.dialect, s.Reply.Path, got))
+				}
+				if rowAfter, _ := tw.store.row(tw.keys[chain]); presentBefore && !bytes.Equal(rowAfter, rowBefore) {
+					viol(n, "submit:dedup-row-changed:"+tw.dialect, fmt.Sprintf("submission of %s: the Add of a key the table already holds changed the stored row (%d -> %d bytes)", s.Args.Cert, len(rowBefore), len(rowAfter)))
+				}
+				if s.Args.Fault == "addConnLost" && st1.BadConnExec-st0.BadConnExec != 1 {
+					t.Fatalf("the connection loss did not strike once: %+v", st1)
+				}
+				kinds["path/"+s.Reply.Path] = true
 			}
 			if s.Reply.Add {
 				outstanding++
@@ -503,19 +818,26 @@ func runChainStore(t *testing.T, beh CSBehaviour, idx int, rep *vh.Report, dir s
 			if errD != nil || codeD != 200 {
 				t.Fatalf("direct instance read failed: %d %v", codeD, errD)
 			}
-			if s.Args.Fault == "findError" {
-				tw.store.mu.Lock()
-				tw.store.FailFind = true
-				tw.store.mu.Unlock()
+			ctx, cancel := context.WithCancel(context.Background())
+			if s.Args.Fault != "none" {
+				tw.store.arm(s.Args.Fault, idx*31+n, cancel)
 			}
-			_, f0 := tw.store.counts()
-			codeX, leafX, extraX, errX := readEntry(tw.x, s.Args.Via, s.Args.Index, size)
-			_, f1 := tw.store.counts()
+			m0 := tw.rec.mark()
+			cause := s.Args.Fault
+			if cause == "none" || strings.HasSuffix(cause, "ConnLost") {
+				cause = rowCause(chainOf[s.Reply.Cert])
+			}
+			codeX, leafX, extraX, errX := readEntryCtx(ctx, tw.x, s.Args.Via, s.Args.Index, size)
+			cancel()
+			tw.store.disarm()
+			finds := tw.rec.since(m0, "find")
+			f0, f1 := 0, len(finds)
 			if errX != nil && codeX == 0 {
 				viol(n, "read:panic:"+s.Args.Via, errX.Error())
 				continue
 			}
 			fpc := fmt.Sprintf("%s:%s", s.Args.Via, chainOf[s.Reply.Cert])
+			layerCheck(n, "find", finds, []string{s.Reply.Layer}, cause)
 			if s.Reply.Status == 200 {
 				if codeX != 200 {
 					viol(n, fmt.Sprintf("read:status:%s:got%d", fpc, codeX), fmt.Sprintf("reading index %d (%s) with external chain storage answered %d, the direct mode serves it", s.Args.Index, s.Args.Via, codeX))
@@ -544,26 +866,26 @@ func runChainStore(t *testing.T, beh CSBehaviour, idx int, rep *vh.Report, dir s
 			}
 		case "ReadRange":
 			size := tw.d.Env.Backend.Size()
-			codeD, entsD, errD := readRange(tw.d, s.Args.Index, s.Args.To)
+			codeD, entsD, errD := readRange(context.Background(), tw.d, s.Args.Index, s.Args.To)
 			if errD != nil || codeD != 200 || len(entsD) != s.Args.To-s.Args.Index+1 {
 				t.Fatalf("direct instance range read failed: %d %v (%d entries, tree %d)", codeD, errD, len(entsD), size)
 			}
-			if s.Args.Fault == "findError" {
-				tw.store.mu.Lock()
-				tw.store.FailFind = true
-				tw.store.mu.Unlock()
+			ctx, cancel := context.WithCancel(context.Background())
+			if s.Args.Fault != "none" {
+				tw.store.arm(s.Args.Fault, idx*31+n, cancel)
 			}
-			_, f0 := tw.store.counts()
-			codeX, entsX, errX := readRange(tw.x, s.Args.Index, s.Args.To)
-			_, f1 := tw.store.counts()
-			tw.store.mu.Lock()
-			tw.store.FailFind = false
-			tw.store.mu.Unlock()
+			m0 := tw.rec.mark()
+			codeX, entsX, errX := readRange(ctx, tw.x, s.Args.Index, s.Args.To)
+			cancel()
+			tw.store.disarm()
+			finds := tw.rec.since(m0, "find")
+			f0, f1 := 0, len(finds)
 			fpr := fmt.Sprintf("range:%s", lastRangeCause(s))
 			if errX != nil && codeX == 0 {
 				viol(n, "readrange:panic", errX.Error())
 				continue
 			}
+			layerCheck(n, "find", finds, s.Reply.Layers, "range:"+lastRangeCause(s))
 			// whatever the status: chain data that is served is the direct mode's, entry by entry
 			if codeX == 200 {
 				if len(entsX) == 0 || len(entsX) > len(entsD) {
@@ -617,9 +939,9 @@ func runChainStore(t *testing.T, beh CSBehaviour, idx int, rep *vh.Report, dir s
 			}
 			outstanding--
 		case "DropRow":
-			tw.store.damage(tw.keys[s.Args.Chain], "drop")
+			tw.damage(s.Args.Chain, "drop", 0)
 		case "Corrupt":
-			tw.store.damage(tw.keys[s.Args.Chain], s.Args.Class)
+			tw.damage(s.Args.Chain, s.Args.Class, idx+n)
 		}
 	}
 	if !diverged && !unmodelled && len(beh.Cold) == tw.x.Env.Backend.Size() {
@@ -658,14 +980,32 @@ func runChainStore(t *testing.T, beh CSBehaviour, idx int, rep *vh.Report, dir s
 		for k := range kinds {
 			ks = append(ks, k)
 		}
-		key = fmt.Sprintf("cap%d:%s", beh.Cap, strings.Join(sortedStrings(ks), ","))
+		key = fmt.Sprintf("%s:cap%d:%s", tw.dialect, beh.Cap, strings.Join(sortedStrings(ks), ","))
 	}
 	rep.Eval(key)
 }
 
+// reportSQL adds what the in-process database of one behaviour saw to the report.
+func reportSQL(rep *vh.Report, tw *twin) {
+	db := tw.store.sql()
+	if db == nil {
+		return
+	}
+	st := db.Stats()
+	pre := "sql_" + tw.dialect + "_"
+	for k, v := range map[string]int{"statements": st.Execs + st.Queries, "rows_inserted": st.Inserted, "duplicate_key_errors": st.DupErrors, "conflicts_skipped": st.ConflictsSkipped,
+		"selects_without_row": st.NoRows, "rows_returned": st.RowsReturned, "connections": st.Connects, "connections_lost": st.BadConnExec + st.BadConnQuery, "faults_struck": st.FaultsStruck,
+		"statements_rejected": st.SyntaxErrors + st.Unsupported} {
+		rep.Add(pre+k, v)
+	}
+	for text := range db.Statements() {
+		rep.Add("sql_text: "+text, 1)
+	}
+}
+
 func lastDamage(steps []CSStep, fault string) string {
-	if fault == "findError" {
-		return "findError"
+	if fault != "none" && fault != "" && !strings.HasSuffix(fault, "ConnLost") {
+		return fault
 	}
 	// the damage that still applies to the chain being read: the last DropRow / Corrupt of that chain
 	// that no later successful Add of the same chain repaired
@@ -705,7 +1045,7 @@ func TestChainStore(t *testing.T) {
 	if err != nil {
 		t.Fatal(err)
 	}
-	rep := vh.NewReport("cctfe-chainstore", "behaviours of ChainStore.tla (submissions, sequencing, legacy full-chain entries, reads through both read endpoints, detached cache writes fired at chosen points, storage faults / dropped / damaged rows) replayed on two real instances (direct and external chain storage with the real LRU/noop cache behind a gate) fed the same submissions; every served entry compared byte for byte; non-trivial = distinct (cache capacity, set of (operation, status, fault) triples >= 3)")
+	rep := vh.NewReport("cctfe-chainstore", "behaviours of ChainStore.tla (submissions, sequencing, legacy full-chain entries, reads through both read endpoints, detached cache writes fired at chosen points, storage faults / dropped / damaged rows) replayed on two real instances (direct and external chain storage with the real LRU/noop cache behind a gate) fed the same submissions; the external instance stores through the layer the behaviour names (Dialect): the in-memory stand-in, or the repository's MySQL / PostgreSQL IssuanceChainStorage on an in-process database/sql driver with the dialect's semantics and fault classes (statement error, cancellation in flight / after the commit, lost connection, database down, result-set error); every served entry compared byte for byte, every answer of the storage layer and the path the database took (inserted / duplicate-key error / conflict skipped) compared with the specification; non-trivial = distinct (storage layer, cache capacity, set of (operation, status, fault) triples and de-duplication paths >= 3)")
 	dir := t.TempDir()
 	var wg sync.WaitGroup
 	ch := make(chan int)
@@ -736,10 +1076,11 @@ func TestChainStore(t *testing.T) {
 // real cache (tiny capacity and TTL, no gate), under the race detector; afterwards every entry must equal
 // what the direct mode serves for the same leaf.
 func TestChainStoreConcurrent(t *testing.T) {
-	rep := vh.NewReport("cctfe-chainstore-concurrent", "concurrent submissions and reads on the external-storage instance (real LRU, capacity 1-2, TTL 1-3 ms, ungated detached cache writes, -race); every served entry compared with the direct mode by leaf; non-trivial = round with at least 3 distinct chains served")
+	rep := vh.NewReport("cctfe-chainstore-concurrent", "concurrent submissions and reads on the external-storage instance (storage in turn: in-memory, the repository's MySQL and PostgreSQL IssuanceChainStorage on the in-process database; real LRU, capacity 1-2, TTL 1-3 ms, ungated detached cache writes, -race); every served entry compared with the direct mode by leaf; non-trivial = round with at least 3 distinct chains served")
 	rounds := vh.EnvInt("VERIF_ROUNDS", 6)
 	for r := 0; r < rounds; r++ {
-		tw, err := newTwin(t.TempDir(), 1+r%2, int64(1000+r), time.Duration(1+r%3)*time.Millisecond)
+		dialect := []string{"memory", "mysql", "postgresql"}[r%3]
+		tw, err := newTwin(t.TempDir(), 1+r%2, int64(1000+r), time.Duration(1+(r/2)%3)*time.Millisecond, dialect)
 		if err != nil {
 			t.Fatal(err)
 		}
@@ -804,6 +1145,8 @@ func TestChainStoreConcurrent(t *testing.T) {
 		wg.Wait()
 		close(stop)
 		tw.gate.ReleaseAll()
+		reportSQL(rep, tw)
+		tw.store.shut()
 		rep.Eval(fmt.Sprintf("round-%d", r))
 	}
 	rep.Replayed = rounds
@@ -817,7 +1160,7 @@ func TestChainStoreConcurrent(t *testing.T) {
 // still give an error status, never a crash (C08 matrix rows for the external-storage mode, C14).
 func TestChainStoreBackendFaults(t *testing.T) {
 	rep := vh.NewReport("cctfe-chainstore-backendfaults", "external-storage instance: get-entry-and-proof / get-entries with backend replies lacking the leaf, the proof or the root; non-trivial = each fault class executed")
-	tw, err := newTwin(t.TempDir(), 2, 77, 0)
+	tw, err := newTwin(t.TempDir(), 2, 77, 0, "memory")
 	if err != nil {
 		t.Fatal(err)
 	}
